@@ -231,6 +231,8 @@ where
     }
 
     if let Some(entry) = old_entry {
+      #[cfg(excsn_fibre_verif)]
+      crate::verif_sched::point("insert:before_old_cost_sub");
       // Cancel timers on this shard's specific TimerWheel.
       if let Some(wheel) = &shard.timer_wheel {
         if let Some(handle) = &entry.ttl_timer_handle {
@@ -248,10 +250,14 @@ where
         .fetch_sub(old_cost, Ordering::Relaxed);
     }
 
+    #[cfg(excsn_fibre_verif)]
+    crate::verif_sched::point("insert:before_event_push");
     let _ = shard
       .event_buffer_tx
       .try_send(AccessEvent::Write(key.clone(), cost));
 
+    #[cfg(excsn_fibre_verif)]
+    crate::verif_sched::point("insert:before_cost_add");
     self.shared.metrics.inserts.fetch_add(1, Ordering::Relaxed);
     self
       .shared
@@ -269,6 +275,8 @@ where
       .total_cost_added
       .fetch_add(cost, Ordering::Relaxed);
 
+    #[cfg(excsn_fibre_verif)]
+    crate::verif_sched::point("insert:before_maintenance");
     self._run_opportunistic_maintenance(&key, shard);
   }
 
@@ -303,6 +311,8 @@ where
     }
 
     if let Some(entry) = old_entry {
+      #[cfg(excsn_fibre_verif)]
+      crate::verif_sched::point("insert:before_old_cost_sub");
       if let Some(wheel) = &shard.timer_wheel {
         if let Some(handle) = &entry.ttl_timer_handle {
           wheel.cancel(handle);
@@ -319,10 +329,14 @@ where
         .fetch_sub(old_cost, Ordering::Relaxed);
     }
 
+    #[cfg(excsn_fibre_verif)]
+    crate::verif_sched::point("insert:before_event_push");
     let _ = shard
       .event_buffer_tx
       .try_send(AccessEvent::Write(key.clone(), cost));
 
+    #[cfg(excsn_fibre_verif)]
+    crate::verif_sched::point("insert:before_cost_add");
     self.shared.metrics.inserts.fetch_add(1, Ordering::Relaxed);
     self
       .shared
@@ -340,6 +354,8 @@ where
       .total_cost_added
       .fetch_add(cost, Ordering::Relaxed);
 
+    #[cfg(excsn_fibre_verif)]
+    crate::verif_sched::point("insert:before_maintenance");
     self._run_opportunistic_maintenance(&key, shard);
   }
 
@@ -380,6 +396,8 @@ where
       // The operation failed because another thread is holding an Arc to the value.
       // Yield the current thread to the OS scheduler to give other threads
       // a chance to run and potentially drop their Arcs.
+      #[cfg(excsn_fibre_verif)]
+      crate::verif_sched::point("compute:retry");
       thread::yield_now();
     }
   }
@@ -468,6 +486,8 @@ where
       // The operation failed because another thread is holding an Arc to the value.
       // Yield the current thread to the OS scheduler to give other threads
       // a chance to run and potentially drop their Arcs.
+      #[cfg(excsn_fibre_verif)]
+      crate::verif_sched::point("compute:retry");
       thread::yield_now();
     }
   }
@@ -493,6 +513,8 @@ where
     } // `guard` (and L_shard) is released here.
 
     if let Some((found_key, entry)) = removed_entry {
+      #[cfg(excsn_fibre_verif)]
+      crate::verif_sched::point("remove:before_policy_remove");
       if let Some(wheel) = &shard.timer_wheel {
         if let Some(handle) = &entry.ttl_timer_handle {
           wheel.cancel(handle);
@@ -503,6 +525,8 @@ where
       }
 
       self.shared.get_cache_policy(key).on_remove(&found_key);
+      #[cfg(excsn_fibre_verif)]
+      crate::verif_sched::point("remove:before_cost_sub");
       self
         .shared
         .metrics
@@ -515,6 +539,8 @@ where
         .fetch_sub(entry.cost(), Ordering::Relaxed);
 
       let value = entry.value();
+      #[cfg(excsn_fibre_verif)]
+      crate::verif_sched::point("remove:before_notify");
       if let Some(sender) = &self.shared.notification_sender {
         let _ = sender.try_send((found_key, value.clone(), EvictionReason::Invalidated));
       }
@@ -680,6 +706,8 @@ where
         &janitor_context,
         COOPERATIVE_MAINTENANCE_DRAIN_LIMIT,
       );
+      #[cfg(excsn_fibre_verif)]
+      crate::verif_sched::point("coop:before_unlock");
     }
   }
 }
@@ -877,11 +905,17 @@ where
     };
 
     for (i, shard) in self.shared.store.shards.iter().enumerate() {
+      #[cfg(excsn_fibre_verif)]
+      crate::verif_sched::point("maint:before_lock");
       let _guard = shard.maintenance_lock.lock();
       perform_shard_maintenance(shard, i, &janitor_context, COOPERATIVE_MAINTENANCE_DRAIN_LIMIT);
+      #[cfg(excsn_fibre_verif)]
+      crate::verif_sched::point("maint:before_ttl");
       Janitor::cleanup_ttl_for_shard(shard, i, &janitor_context);
       Janitor::cleanup_tti_for_shard(shard, i, &janitor_context);
       Janitor::cleanup_capacity_for_shard(shard, i, &janitor_context);
+      #[cfg(excsn_fibre_verif)]
+      crate::verif_sched::point("maint:before_unlock");
     }
   }
 }
